@@ -124,6 +124,10 @@ pub proof fn lemma_ik_eq(a: InternalKey, b: InternalKey)
 //@sig
     ensures r@ == self.user_key@,
 //@endfn
+//@fn get_user_key_as_vec props: C04
+//@sig
+    ensures *r == self.user_key,
+//@endfn
 //@fn get_operation props: C01 C13
 //@sig
     ensures r == self.operation,
